@@ -192,7 +192,9 @@ func (R *Repository) createTempFile() (string, error) {
 }
 
 func (R *Repository) IsRevoked(certificate *x509.Certificate, locations *core.CRLLocations) (*core.RevocationStatus, error) {
-	if locations != nil {
+	//In strict mode enforce CDP CRL is loaded otherwise abort.
+	//Without strict mode a CDP which can not be used must not deny the connection
+	if locations != nil && R.crlConfig.CDPConfig.CRLCDPStrict {
 		loader, err := R.crlLoaderFactory.CreatePreferredCrlLoader(locations, R.logger)
 		if err != nil {
 			return nil, err
@@ -201,8 +203,7 @@ func (R *Repository) IsRevoked(certificate *x509.Certificate, locations *core.CR
 		if err != nil {
 			return nil, err
 		}
-		//In strict mode enforce CDP CRL is loaded otherwise abort
-		if R.crlConfig.CDPConfig.CRLCDPStrict && R.isEntryPresentAndLoaded(identifier) == false {
+		if R.isEntryPresentAndLoaded(identifier) == false {
 			return nil, fmt.Errorf("CRL defined in CDP was not loaded")
 		}
 	}
